@@ -1,7 +1,7 @@
 (* Property C07 - spectrum files round-trip through text and npy; the tool reads what it writes.
    Values are 64-bit patterns; the std float formatting/parsing functions are modelled by executable stand-ins
    (print_fixed, parse_f64) that are compared with Rust on every run. *)
-From Sfs Require Import Index Npy Text NpyP TextP.
+From Sfs Require Import Index Npy Text NpyP TextP NpySpellP.
 Close Scope string_scope. Open Scope N_scope.
 
 (* npy: writing and reading back returns the same shape and bit-identical values (any 64-bit pattern: NaN payloads, infinities) *)
